@@ -156,6 +156,10 @@ def main(argv=None):
     }
     os.makedirs(os.path.join(core.VERIF, "evidence"), exist_ok=True)
     evp = os.path.join(core.VERIF, "evidence", f"{pid}.json")
+    if os.path.realpath(compat.REPO) != os.path.realpath("/repo"):
+        # runs against another checkout (seeded-change experiments) never touch the evidence of /repo
+        os.makedirs(os.path.join(core.VERIF, "evidence", "_alt"), exist_ok=True)
+        evp = os.path.join(core.VERIF, "evidence", "_alt", f"{pid}.json")
     if a.shard is None:      # a single-shard debugging run never overwrites the evidence of a full run
         tmp = f"{evp}.{os.getpid()}.tmp"
         with open(tmp, "w") as f:
